@@ -27,6 +27,7 @@ import (
 	"golang.org/x/net/bpf"
 
 	seccomp "github.com/elastic/go-seccomp-bpf"
+	"github.com/elastic/go-seccomp-bpf/arch"
 )
 
 func init() {
@@ -324,6 +325,27 @@ func policyFor(kind string, idx int) seccomp.Policy {
 		}
 		l = append(l, cond(uint64(probeBase+idx)))
 		return seccomp.Policy{DefaultAction: seccomp.ActionAllow, Syscalls: []seccomp.SyscallGroup{{Action: seccomp.ActionErrno, NamesWithCondtions: l}}}
+	case "mid":
+		// valid, about 500 instructions
+		var l []seccomp.NameWithConditions
+		for j := 0; j < 100; j++ {
+			l = append(l, cond(uint64(800000+j)))
+		}
+		l = append(l, cond(uint64(probeBase+idx)))
+		return seccomp.Policy{DefaultAction: seccomp.ActionAllow, Syscalls: []seccomp.SyscallGroup{{Action: seccomp.ActionErrno, NamesWithCondtions: l}}}
+	case "midnames":
+		// valid, names only (about 300 instructions), then the probe
+		names := []string{}
+		for name := range arch.X86_64.SyscallNames {
+			if name != "getppid" && len(names) < 290 {
+				names = append(names, name)
+			}
+		}
+		sort.Strings(names)
+		_ = names
+		return seccomp.Policy{DefaultAction: seccomp.ActionAllow, Syscalls: []seccomp.SyscallGroup{
+			{Action: seccomp.ActionLog, Names: names},
+			{Action: seccomp.ActionErrno, NamesWithCondtions: []seccomp.NameWithConditions{cond(uint64(probeBase + idx))}}}}
 	case "nodefault":
 		return seccomp.Policy{Syscalls: []seccomp.SyscallGroup{{Action: seccomp.ActionErrno, NamesWithCondtions: []seccomp.NameWithConditions{cond(uint64(probeBase + idx))}}}, DefaultAction: seccomp.Action(0x12345)}
 	}
